@@ -54,4 +54,135 @@ theorem cost_walk_lower (n : Nat) :
 /-- Non-vacuity / sample: `n = 3` — 41 tokens, 23 visits. -/
 example : costVisits 100 (chainDoc fname 3) = some { visits := 23, err := false } := by decide +kernel
 
+
+/-! ### The depth limit is about depth only -/
+
+/-- **depth_error_iff** — for a document of the grammar (the tokens render a well-formed tree `d`, no
+    scanner errors) `ParseDocument` reports "maximum recursion depth exceeded" — and then nothing else,
+    as an ordinary recovered error — exactly when the *production depth* `pdDocument d` exceeds
+    `maxRecursion`; otherwise it returns `d`. `pdDocument` is defined on the tree alone, as a maximum
+    over siblings at every level (`pd_breadth_free` below): it depends on nesting only. -/
+theorem depth_error_iff (maxRec : Nat) (inp : Input) (d : Document)
+    (hclean : scannerErrs inp = []) (hr : Renders inp.toks d.stoks = true) (hwf : wfDocument d = true) :
+    ((∃ p, ParseDocument maxRec inp = .recovered [{ msg := depthMsg, pos := p }]) ↔ maxRec < pdDocument d) ∧
+    (ParseDocument maxRec inp = .returned d [] ↔ pdDocument d ≤ maxRec) := by
+  rcases parse_rendering maxRec inp d hclean hr hwf with ⟨hd, h⟩ | ⟨hd, p, h⟩
+  · refine ⟨⟨fun ⟨p, hp⟩ => ?_, fun h' => by omega⟩, ⟨fun _ => hd, fun _ => h⟩⟩
+    rw [h] at hp; simp at hp
+  · refine ⟨⟨fun _ => hd, fun _ => ⟨p, h⟩⟩, ⟨fun h' => ?_, fun h' => by omega⟩⟩
+    rw [h] at h'; simp at h'
+
+/-- **deep_is_error** — nesting beyond the limit is refused with an ordinary error value: the outcome
+    of `ParseDocument` is never the model's out-of-fuel (for *every* input, grammatical or not), and for
+    a too deeply nested document of the grammar it is the single recovered depth error. A Go panic other
+    than `panic(*Error)` has no counterpart in the model because the parser contains no other panic
+    site; stack exhaustion is excluded by `rec_balanced`: the Go call stack is at most `maxRecursion`
+    production frames high. -/
+theorem deep_is_error (maxRec : Nat) (inp : Input) :
+    ParseDocument maxRec inp ≠ .outOfFuel ∧
+    ∀ d, scannerErrs inp = [] → Renders inp.toks d.stoks = true → wfDocument d = true → maxRec < pdDocument d →
+      ∃ p, ParseDocument maxRec inp = .recovered [{ msg := depthMsg, pos := p }] :=
+  ⟨(parse_fuel_sufficient maxRec inp false).1,
+   fun d hc hr hwf hd => ((depth_error_iff maxRec inp d hc hr hwf).1).mpr hd⟩
+
+theorem pdSels_append (a b : List Selection) : pdSels (a ++ b) = max (pdSels a) (pdSels b) := by
+  induction a with
+  | nil => simp [pdSels_nil]
+  | cons s a ih => simp only [List.cons_append, pdSels_cons, ih]; omega
+
+theorem pdValues_append (a b : List Value) : pdValues (a ++ b) = max (pdValues a) (pdValues b) := by
+  induction a with
+  | nil => simp [pdValues]
+  | cons s a ih => simp only [List.cons_append, pdValues, ih]; omega
+
+theorem pdArgList_append (a b : List Argument) : pdArgList (a ++ b) = max (pdArgList a) (pdArgList b) := by
+  induction a with
+  | nil => simp [pdArgList]
+  | cons s a ih => simp only [List.cons_append, pdArgList, ih]; omega
+
+theorem pdDirList_append (a b : List Directive) : pdDirList (a ++ b) = max (pdDirList a) (pdDirList b) := by
+  induction a with
+  | nil => simp [pdDirList]
+  | cons s a ih => simp only [List.cons_append, pdDirList, ih]; omega
+
+theorem pdVarDefList_append (a b : List VarDef) : pdVarDefList (a ++ b) = max (pdVarDefList a) (pdVarDefList b) := by
+  induction a with
+  | nil => simp [pdVarDefList]
+  | cons s a ih => simp only [List.cons_append, pdVarDefList, ih]; omega
+
+theorem pdDefs_append (a b : List Definition) : pdDefs (a ++ b) = max (pdDefs a) (pdDefs b) := by
+  induction a with
+  | nil => simp [pdDefs]
+  | cons s a ih => simp only [List.cons_append, pdDefs, ih]; omega
+
+/-- **pd_breadth_free** — the production depth of every kind of sibling list is the maximum over its
+    members: concatenating siblings (selections, list items, arguments, directives, variable definitions,
+    definitions) never adds depth. -/
+theorem pd_breadth_free :
+    (∀ a b : List Selection, pdSels (a ++ b) = max (pdSels a) (pdSels b)) ∧
+    (∀ a b : List Value, pdValues (a ++ b) = max (pdValues a) (pdValues b)) ∧
+    (∀ a b : List Argument, pdArgList (a ++ b) = max (pdArgList a) (pdArgList b)) ∧
+    (∀ a b : List Directive, pdDirList (a ++ b) = max (pdDirList a) (pdDirList b)) ∧
+    (∀ a b : List VarDef, pdVarDefList (a ++ b) = max (pdVarDefList a) (pdVarDefList b)) ∧
+    (∀ a b : List Definition, pdDefs (a ++ b) = max (pdDefs a) (pdDefs b)) :=
+  ⟨pdSels_append, pdValues_append, pdArgList_append, pdDirList_append, pdVarDefList_append, pdDefs_append⟩
+
+theorem pdSels_le {k : Nat} : ∀ (sels : List Selection), (∀ s ∈ sels, pdSelection s ≤ k) → pdSels sels ≤ k
+  | [], _ => by simp [pdSels_nil]
+  | s :: ss, h => by
+    rw [pdSels_cons]
+    have h1 := h s (by simp)
+    have h2 := pdSels_le ss (fun x hx => h x (by simp [hx]))
+    omega
+
+theorem pdDefs_le {k : Nat} : ∀ (ds : List Definition), (∀ d ∈ ds, pdDefinition d ≤ k) → pdDefs ds ≤ k
+  | [], _ => by simp [pdDefs]
+  | d :: ds, h => by
+    simp only [pdDefs]
+    have h1 := h d (by simp)
+    have h2 := pdDefs_le ds (fun x hx => h x (by simp [hx]))
+    omega
+
+/-- **flat_never_limited** — breadth is never limited by the depth limit. For every bound `k`: a
+    document all of whose definitions have production depth ≤ `k` — however many definitions it has,
+    and however many selections each selection set in it has — is returned whenever `k + 1 ≤ maxRecursion`.
+    (Instance: the flat document `{ f f … f }` of any width has production depth 8.) -/
+theorem flat_never_limited (maxRec k : Nat) (inp : Input) (d : Document)
+    (hclean : scannerErrs inp = []) (hr : Renders inp.toks d.stoks = true) (hwf : wfDocument d = true)
+    (hk : ∀ x ∈ d.defs, pdDefinition x ≤ k) (hlim : k + 1 ≤ maxRec) :
+    ParseDocument maxRec inp = .returned d [] := by
+  apply C06.parse_print maxRec inp d hclean hr hwf
+  have := pdDefs_le d.defs hk
+  simp only [pdDocument]
+  omega
+
+/-- The flat selection set of `w + 1` fields `f`. -/
+def flatDoc (w : Nat) : Document :=
+  { defs := [.op none none [] [] (.mk (List.replicate (w + 1) (.field none ⟨"f", p0⟩ [] [] none)) p0 p0)] }
+
+/-- Its production depth is 8 for every width (Go: parseDocument → parseDefinition →
+    parseOperationDefinition → parseOptionalSelectionSet → parseSelectionSet → parseSelection →
+    parseField → parseName). -/
+theorem pd_flatDoc (w : Nat) : pdDocument (flatDoc w) = 8 := by
+  have h : pdSels (List.replicate (w + 1) (Selection.field none ⟨"f", p0⟩ [] [] none)) = 3 := by
+    induction w with
+    | zero => rfl
+    | succ w ih =>
+      rw [List.replicate_succ, pdSels_cons, ih]
+      rfl
+  simp only [pdDocument, flatDoc, pdDefs, pdDefinition, pdSelSet_mk, h]
+  rfl
+
+/-- Before the F-12a fix the same family was refused at width ≈ `maxRecursion`: on `{ f f f }` with
+    `maxRecursion = 8` (exactly the depth the document needs) the fixed parser returns the document,
+    the parser with the leak reports the depth error at the second field. -/
+def threeFields : Input :=
+  { toks := [{ kind := .punct, value := "{", pos := ⟨1, 1⟩ }, { kind := .name, value := "f", pos := ⟨1, 3⟩ },
+             { kind := .name, value := "f", pos := ⟨1, 5⟩ }, { kind := .name, value := "f", pos := ⟨1, 7⟩ },
+             { kind := .punct, value := "}", pos := ⟨1, 9⟩ }], eofPos := ⟨1, 10⟩ }
+
+example : (ParseDocument 8 threeFields false).accepted = true := by decide +kernel
+example : (ParseDocument 8 threeFields true).recoveredErrs = some [{ msg := depthMsg, pos := ⟨1, 5⟩ }] := by
+  decide +kernel
+
 end ApiFu.C12
